@@ -279,3 +279,146 @@ Proof.
       - destruct reset; frschain. }
     destruct (ok _); [|exact H0]. eapply frs_trans; [exact H0|frs0].
 Qed.
+
+(* ================= C18: a node without own address ================= *)
+Definition ro_inv (n : node) : Prop :=
+  self n = None /\ role n = FOLLOWER /\ voted n = None /\ votes n = 0.
+
+Lemma ro_inv_core : forall a b, core a = core b -> ro_inv b -> ro_inv a.
+Proof.
+  intros a b H (H1 & H2 & H3 & H4). destruct (core_fields _ _ H) as (A1 & A2 & A3 & A4 & A5 & A6).
+  unfold ro_inv; rewrite A1, A2, A4, A5; auto.
+Qed.
+
+Definition ae_term (m : msg) : option N :=
+  match m with
+  | AE t _ _ _ => Some t | AEPiece t _ _ _ _ _ _ => Some t | AESnap t _ _ => Some t | _ => None
+  end.
+
+Lemma fr_term : forall m s s', fr m s s' -> term (nd s') = term (nd s).
+Proof. intros m s s' H. destruct (core_fields _ _ (fr_core _ _ _ H)) as (_ & _ & A & _); exact A. Qed.
+
+Lemma fr_ro : forall m s s', fr m s s' -> ro_inv (nd s) -> ro_inv (nd s').
+Proof. intros m s s' H; apply ro_inv_core; eapply fr_core; eauto. Qed.
+
+Lemma fr_start_benign : forall m e n s', fr m (start_S e n) s' -> Forall benign (outs s').
+Proof. intros m e n s' H. destruct (fr_outs _ _ _ H) as (ex & O & B). rewrite O; exact B. Qed.
+
+Lemma fr_andthen_P : forall (P : S -> Prop) m f g s,
+  fr m s (f s) -> P (f s) -> (forall s', P s' -> fr m s' (g s')) -> fr m s ((f ;; g) s).
+Proof.
+  intros P m f g s Hf HP Hg; unfold andthen. destruct (ok (f s)); [|exact Hf].
+  eapply fr_trans; [exact Hf | apply Hg; exact HP].
+Qed.
+
+Lemma tick_election_ro : forall e s, self (nd s) = None -> tick_election e s = s.
+Proof. intros e s H; unfold tick_election; cbv zeta; rewrite H; reflexivity. Qed.
+
+Lemma tick_leader_nonleader : forall e s, role (nd s) <> LEADER -> tick_leader e s = s.
+Proof.
+  intros e s H; unfold tick_leader; cbv zeta.
+  destruct (role (nd s) =? LEADER) eqn:E; [apply N.eqb_eq in E; contradiction | reflexivity].
+Qed.
+
+Lemma ro_on_tick_fr : forall e n, period_ok e -> ro_inv n -> fr false (start_S e n) (on_tick e n).
+Proof.
+  intros e n Hp Hro. unfold on_tick; cbv zeta.
+  set (P := fun s : S => ro_inv (nd s)).
+  assert (forall s s', fr false s s' -> P s -> P s') as HP by (intros s s' H; apply fr_ro with (m := false); exact H).
+  apply fr_andthen_P with (P := P); [apply fr_tick_load | eapply HP; [apply fr_tick_load | exact Hro] |].
+  intros s1 P1.
+  apply fr_andthen_P with (P := P); [apply fr_any; apply fr_tick_timer | eapply HP; [apply fr_any; apply fr_tick_timer | exact P1] |].
+  intros s2 P2.
+  assert (tick_election e s2 = s2) as E2 by (apply tick_election_ro; apply P2).
+  apply fr_andthen_P with (P := P); [rewrite E2; apply fr_refl | rewrite E2; exact P2 |].
+  intros s3 P3.
+  assert (tick_leader e s3 = s3) as E3.
+  { apply tick_leader_nonleader. destruct P3 as (_ & R & _). rewrite R. discriminate. }
+  apply fr_andthen_P with (P := P); [rewrite E3; apply fr_refl | rewrite E3; exact P3 |].
+  intros s4 P4.
+  destruct (apply_entries e s4) as [s5 need] eqn:E.
+  assert (fr false s4 s5) as H5.
+  { change s5 with (fst (s5, need)); rewrite <- E; apply fr_apply_entries. }
+  destruct (ok s5); [|exact H5].
+  eapply fr_trans; [exact H5|].
+  apply fr_andthen; [apply fr_tick_send; exact Hp|]. intros s6.
+  apply fr_andthen; [apply fr_tick_ready|]. intros s7.
+  apply fr_andthen; [apply fr_check_commands; exact Hp|]. intros s8.
+  apply fr_try_compact.
+Qed.
+
+Theorem ro_on_tick : forall e n, period_ok e -> ro_inv n ->
+  ro_inv (nd (on_tick e n)) /\ Forall benign (outs (on_tick e n)) /\ term (nd (on_tick e n)) = term n.
+Proof.
+  intros e n Hp Hro. pose proof (ro_on_tick_fr e n Hp Hro) as H.
+  split; [eapply fr_ro; [exact H | exact Hro]|].
+  split; [eapply fr_start_benign; exact H | apply (fr_term _ _ _ H)].
+Qed.
+
+(* the header of the append_entries branch on a silent follower *)
+Lemma ro_ae_head : forall e from t c s, ro_inv (nd s) ->
+  ro_inv (nd (ae_head e from t c s)) /\
+  (exists ex, outs (ae_head e from t c s) = outs s ++ ex /\ Forall benign ex) /\
+  term (nd (ae_head e from t c s)) = N.max t (term (nd s)).
+Proof.
+  intros e from t c s Hro. unfold ae_head; cbv zeta.
+  set (s1 := upd (fun n => n <| deadline := (tnow s + gen_timeout e)%Z |>) s).
+  set (s2 := if opt_eqb (leader (nd s1)) (Some from) then s1 else on_leader_changed s1).
+  assert (fr true s s2) as H2.
+  { eapply fr_trans with (s2 := s1); [unfold s1; fr0|]. unfold s2. destruct (opt_eqb _ _); fr1. }
+  pose proof (fr_ro _ _ _ H2 Hro) as (R1 & R2 & R3 & R4).
+  pose proof (fr_term _ _ _ H2) as HT.
+  destruct (fr_outs _ _ _ H2) as (ex & O & B).
+  set (s3 := upd (fun n => n <| leader := Some from |>) s2).
+  assert (term (nd s3) = term (nd s)) as HT3 by exact HT.
+  destruct (term (nd s3) <? t) eqn:E.
+  - unfold set_role; cbn. rewrite R2; cbn.
+    split; [unfold ro_inv; cbn; auto|]. split; [exists ex; split; [exact O | exact B]|].
+    rewrite HT3 in E. apply N.ltb_lt in E. lia.
+  - unfold set_role; cbn. rewrite R2; cbn.
+    split; [unfold ro_inv; cbn; auto|]. split; [exists ex; split; [exact O | exact B]|].
+    rewrite HT3 in E. apply N.ltb_ge in E. rewrite HT. lia.
+Qed.
+
+Theorem ro_on_message : forall e from m n, period_ok e -> ro_inv n ->
+  let s := on_message e from m n in
+  ro_inv (nd s) /\ Forall benign (outs s) /\
+  (term (nd s) = term n \/ exists t, ae_term m = Some t /\ term n < t /\ term (nd s) = t).
+Proof.
+  intros e from m n Hp Hro; cbv zeta.
+  assert (forall s', fr false (start_S e n) s' ->
+            ro_inv (nd s') /\ Forall benign (outs s') /\
+            (term (nd s') = term n \/ exists t, ae_term m = Some t /\ term n < t /\ term (nd s') = t)) as HF.
+  { intros s' H. split; [eapply fr_ro; [exact H | exact Hro]|].
+    split; [eapply fr_start_benign; exact H | left; apply (fr_term _ _ _ H)]. }
+  assert (forall t c, ae_term m = Some t ->
+            let s := on_append_entries e from m t c (start_S e n) in
+            ro_inv (nd s) /\ Forall benign (outs s) /\
+            (term (nd s) = term n \/ exists t, ae_term m = Some t /\ term n < t /\ term (nd s) = t)) as HAE.
+  { intros t c Hm; cbv zeta. rewrite on_append_entries_eq.
+    destruct (t <? term (nd (start_S e n))) eqn:E; [apply HF; apply fr_refl|].
+    destruct (ro_ae_head e from t c (start_S e n) Hro) as (A1 & (ex & O & B) & A3).
+    pose proof (fr_ae_tail e from m c (ae_head e from t c (start_S e n))) as HT.
+    split; [eapply fr_ro; [exact HT | exact A1]|].
+    split.
+    - destruct (fr_outs _ _ _ HT) as (ex2 & O2 & B2). rewrite O2, O. cbn. apply Forall_app; auto.
+    - rewrite (fr_term _ _ _ HT), A3. cbn in E |- *. apply N.ltb_ge in E.
+      destruct (N.eq_dec t (term n)) as [->|Hne]; [left; lia|].
+      right; exists t. split; [exact Hm|]. split; lia. }
+  unfold on_message; cbv zeta.
+  destruct Hro as (R1 & R2 & R3 & R4).
+  destruct m as [t lli llt|t|t c p es|t c p lab off len en|t c p|cm req|req okr a b|t next reset success].
+  - change (self (nd (start_S e n))) with (self n). rewrite R1. apply HF; apply fr_refl.
+  - match goal with |- context [if ?c then _ else _] =>
+      replace c with false by (cbn; rewrite R2; reflexivity) end.
+    apply HF; apply fr_refl.
+  - apply HAE; reflexivity.
+  - apply HAE; reflexivity.
+  - apply HAE; reflexivity.
+  - apply HF. apply fr_submit.
+  - apply HF. destruct (aget req _); [|fr1].
+    destruct (negb okr); [frchain|]. destruct (a <=? _); frchain.
+  - match goal with |- context [if ?c then _ else _] =>
+      replace c with false by (cbn; rewrite R2; reflexivity) end.
+    apply HF; apply fr_refl.
+Qed.
